@@ -374,6 +374,10 @@ def SObj.setP (o : SObj K) (pv : Nat → List (V3 K)) : SObj K := { o with inp :
 /-- an in-place edit of the positions of the system the object refers to. -/
 def SObj.setPos (o : SObj K) (pos : Nat → V3 K) : SObj K := { o with inp := { o.inp with pos := pos } }
 
+/-- an in-place change of box and positions of the system the object refers to (`box_set`, `atoms.pos[:] = …`). -/
+def SObj.setSys (o : SObj K) (cell : Cell K) (pos : Nat → V3 K) : SObj K :=
+  { o with inp := { o.inp with cell := cell, pos := pos } }
+
 /-- `solve_G(theta_max=th)`: refuses without p vectors (before anything changes); otherwise sets `theta_max`
     when given, clears **all** cached quantities and stores the new `G`. -/
 def SObj.solve (o : SObj K) (th : Option (K × K)) : SObj K × Bool :=
